@@ -314,6 +314,8 @@ where
     /// use [`LoRa::prepare_for_rx`].
     pub async fn rx_switch_channel(&mut self, frequency_in_hz: u32) -> Result<(), RadioError> {
         if let RadioMode::Receive(listen_mode) = self.radio_mode {
+            // in RxDutyCycle the chip may be in a sleep phase
+            self.radio_kind.ensure_ready(self.radio_mode).await?;
             self.radio_kind.set_standby().await?;
             self.radio_kind.set_channel(frequency_in_hz).await?;
             self.radio_kind.do_rx(listen_mode).await
@@ -326,6 +328,8 @@ where
     /// Call [`LoRa::complete_rx`] to wait and handle result.
     pub async fn start_rx(&mut self) -> Result<(), RadioError> {
         if let RadioMode::Receive(listen_mode) = self.radio_mode {
+            // a receive that is (re)started while an earlier RxDutyCycle is in a sleep phase
+            self.radio_kind.ensure_ready(self.radio_mode).await?;
             self.radio_kind.do_rx(listen_mode).await
         } else {
             Err(RadioError::InvalidRadioMode)
